@@ -571,6 +571,38 @@ def Doc.refs (d : Doc) : List Ident :=
     ++ stIdent d.specification.mt :: (d.specification.values.map (fun v => .stdSpecAttr d.specification.mt v.name)
     ++ d.specification.children.map (fun h => .obj h.uuid))
 
+/-! ## well-formedness of the input (what "the same object" and "well typed" mean for inlined records) -/
+
+/-- every attribute definition reachable from the module's requirements -/
+def allDefs (m : Module) : List AttrDef := m.dfs.flatMap (fun r => r.attrs.filterMap (·.defn))
+
+/-- every data type reachable from those definitions -/
+def allDataTypes (m : Module) : List DataType := (allDefs m).filterMap (·.dataType)
+
+/-- The metamodel's typing of enumeration attributes: a definition given to an enumeration attribute is
+an `AttributeDefinitionEnumeration`, and the chosen values belong to its data type. -/
+def Typed (m : Module) : Prop :=
+  ∀ r ∈ m.dfs, ∀ a ∈ r.attrs, ∀ vs d, a.value = .enum vs → a.defn = some d →
+    d.isEnum = true ∧ ∀ v ∈ vs, ∃ dt, d.dataType = some dt ∧ v ∈ dt.values.map (·.uuid)
+
+/-- the (upper-cased) uuids of the elements identified as `_<UUID>`, in document order before sorting:
+the model, the enumeration values of the emitted data types, the requirement types in use, the module
+type, the requirements, the module -/
+def objUuids (m : Module) : List Str :=
+  up m.modelUuid ::
+    ((customDatatypes m).flatMap (fun d => (d.values.getD []).map (·.uuid))
+      ++ (reqTypes m).filterMap rtOf
+      ++ (mtOf m).toList
+      ++ m.dfs.map (fun r => up r.uuid)
+      ++ [up m.uuid])
+
+/-- Object identity: distinct elements have distinct (case-insensitive) uuids, and records inlined at
+several places with one uuid are one object. -/
+structure Identity (m : Module) : Prop where
+  objs : (objUuids m).Nodup
+  defs : ∀ d₁ ∈ allDefs m, ∀ d₂ ∈ allDefs m, up d₁.uuid = up d₂.uuid → d₁ = d₂
+  dts : ∀ t₁ ∈ allDataTypes m, ∀ t₂ ∈ allDataTypes m, up t₁.uuid = up t₂.uuid → t₁ = t₂
+
 /-! ## `export_module`: where the bytes go -/
 
 inductive Target
